@@ -221,6 +221,8 @@ pub struct WorldSpec {
     pub base: String,
     pub convertibles: Vec<String>,
     pub quotes: Vec<String>,
+    /// the numerically extreme regime: 18 decimals, tiny prices, long rates, huge sizes
+    pub extreme: bool,
 }
 
 const RATES: [&str; 18] = [
@@ -250,15 +252,20 @@ fn rate_from(w: u32, w2: u32, tie_seeking: bool) -> String {
 
 pub fn build_world(w: &[u32; WORLD_WORDS], p: &Profile) -> WorldSpec {
     let precisions: [u32; 10] = [0, 1, 2, 3, 4, 6, 8, 9, 12, 18];
-    let precision = precisions[weighted(w[0], &[30, 12, 14, 8, 6, 8, 5, 4, 4, 9])];
+    let extreme = gate(w[0].rotate_left(7), 40);
+    let precision = if extreme { 18 } else { precisions[weighted(w[0], &[30, 12, 14, 8, 6, 8, 5, 4, 4, 9])] };
     let ks: [u128; 8] = [1, 10, 2, 5, 25, 100, 1000, 3];
-    let k = ks[weighted(w[1], &[40, 20, 8, 8, 6, 8, 5, 5])];
+    let k = if extreme { 1 } else { ks[weighted(w[1], &[40, 20, 8, 8, 6, 8, 5, 5])] };
     let increment = k * 10u128.pow(precision);
     let n_conv = if gate(w[2], p.convertible) { 1 + pick(w[2] << 8, 2) } else { 0 };
     let n_quote = 1 + weighted(w[3], &[70, 30]);
     let base = "base".to_string();
     let mut convertibles: Vec<String> = (0..n_conv).map(|i| format!("conv{}", i + 1)).collect();
     let mut quotes: Vec<String> = (0..n_quote).map(|i| format!("quote{}", i + 1)).collect();
+    if n_quote == 2 && gate(w[3].rotate_left(9), 300) {
+        // one denomination's name contained in the other's
+        quotes[1] = format!("{}.b", quotes[0]);
+    }
     if gate(w[5], p.reuse_denoms) {
         // a denomination playing two roles
         match pick(w[5] << 6, 5) {
@@ -300,6 +307,9 @@ pub fn build_world(w: &[u32; WORLD_WORDS], p: &Profile) -> WorldSpec {
             }
         };
         x /= if p.mixed_markers { 3 } else { 9 };
+        if kind == MarkerKind::Restricted && (w[4].rotate_left(3) ^ d.len() as u32) % 3 == 0 {
+            tables.marker_required_attrs.insert(d.clone());
+        }
         tables.markers.insert(d.clone(), kind);
     }
     // roles
@@ -353,11 +363,22 @@ pub fn build_world(w: &[u32; WORLD_WORDS], p: &Profile) -> WorldSpec {
     msg.insert("supported_quote_denoms".into(), json!(quotes));
     msg.insert("approvers".into(), json!(approvers));
     msg.insert("executors".into(), json!(executors));
-    if gate(w[6], p.fees) {
+    let long_rate = |a: u32, b: u32| -> String {
+        // up to 14 decimals, 1 to 4 significant digits
+        let m = 1 + (a % 9999) as u128;
+        Dec { neg: false, mant: num::u(m), scale: 8 + (b % 7) }.to_plain_string()
+    };
+    if extreme && gate(w[6], p.fees.max(700)) {
+        msg.insert("ask_fee_rate".into(), json!(long_rate(w[6], w[7])));
+        msg.insert("ask_fee_account".into(), json!(POOL[3 + pick(w[7], 5)]));
+    } else if gate(w[6], p.fees) {
         msg.insert("ask_fee_rate".into(), json!(rate_from(w[6] << 9, w[7], false)));
         msg.insert("ask_fee_account".into(), json!(POOL[3 + pick(w[7], 5)]));
     }
-    if gate(w[8], p.fees) {
+    if extreme && gate(w[8], p.fees.max(700)) {
+        msg.insert("bid_fee_rate".into(), json!(long_rate(w[8], w[9])));
+        msg.insert("bid_fee_account".into(), json!(POOL[3 + pick(w[9], 5)]));
+    } else if gate(w[8], p.fees) {
         msg.insert("bid_fee_rate".into(), json!(rate_from(w[8] << 9, w[9], p.tie_seeking)));
         msg.insert("bid_fee_account".into(), json!(POOL[3 + pick(w[9], 5)]));
     }
@@ -417,6 +438,7 @@ pub fn build_world(w: &[u32; WORLD_WORDS], p: &Profile) -> WorldSpec {
         base,
         convertibles,
         quotes,
+        extreme,
     }
 }
 
@@ -439,6 +461,15 @@ fn legacy_uuid_of(n: u64) -> String {
 
 const PRICE_MANTS: [u128; 17] = [1, 2, 3, 5, 10, 4, 7, 15, 25, 99, 100, 125, 1000, 12345, 123456789, 1234567890123456789, 99999999999999999999];
 const LOTS: [u128; 14] = [1, 2, 3, 5, 10, 4, 20, 50, 100, 1000, 1_000_000, 1_000_000_000_000, 18_446_744_073_709_551_615, 39_614_081_257_132_168_796_771_975_167];
+
+fn price_string_x(w: u32, w2: u32, precision: u32, extreme: bool) -> String {
+    if extreme {
+        // tiny prices using every decimal the market allows
+        let m = [1u128, 2, 5, 25, 14, 999][pick(w, 6)];
+        return Dec { neg: false, mant: num::u(m), scale: precision }.to_plain_string();
+    }
+    price_string(w, w2, precision)
+}
 
 fn price_string(w: u32, w2: u32, precision: u32) -> String {
     // the last three carry 9, 19 and 20 significant digits
@@ -466,6 +497,14 @@ fn price_string(w: u32, w2: u32, precision: u32) -> String {
             }
         }
         14 => s = format!("+{}", s),
+        // thirty and more decimals, the surplus ones all zero
+        15 => {
+            let have = s.split('.').nth(1).map(|x| x.len()).unwrap_or(0);
+            if !s.contains('.') {
+                s.push('.');
+            }
+            s.push_str(&"0".repeat(31usize.saturating_sub(have)));
+        }
         10 => {
             let nd = dec.normalized().scale;
             if nd < precision {
@@ -479,6 +518,15 @@ fn price_string(w: u32, w2: u32, precision: u32) -> String {
         _ => {}
     }
     s
+}
+
+fn size_of_x(w: u32, increment: u128, extreme: bool) -> u128 {
+    if extreme {
+        // 10^27 .. just below 2^95, on the lot grid
+        let lots = [1_000_000_000u128, 5_000_000_000, 20_000_000_000, 39_000_000_000, 7_777_777_777][pick(w, 5)];
+        return lots.saturating_mul(increment).min((1u128 << 95) / increment.max(1) * increment.max(1));
+    }
+    size_of(w, increment)
 }
 
 fn size_of(w: u32, increment: u128) -> u128 {
@@ -676,8 +724,8 @@ impl<'a> Interp<'a> {
             cfg.base.clone()
         };
         let mut quote = at(&cfg.quotes, pick(w[1], cfg.quotes.len()), "quote1");
-        let mut price = price_string(w[4], w[8], self.spec.precision);
-        let mut size = size_of(w[3], cfg.increment);
+        let mut price = price_string_x(w[4], w[8], self.spec.precision, self.spec.extreme);
+        let mut size = size_of_x(w[3], cfg.increment, self.spec.extreme && gate(w[10].rotate_left(3), 600));
         let mut id = uuid_of(self.next_ask);
         self.next_ask += 1;
         // the canonical spelling of a UUID that a legacy order carries un-hyphenated: a
@@ -709,7 +757,8 @@ impl<'a> Interp<'a> {
                     funds = self.escrow(&base, size);
                 }
                 7 => size = 0,
-                8 => price = format!("{}1", if price.contains('.') { pad_to(&price, self.spec.precision) } else { format!("{}.{}", price, "0".repeat(self.spec.precision as usize)) }),
+                8 if w[9] & 1 == 0 => price = format!("{}1", if price.contains('.') { pad_to(&price, self.spec.precision) } else { format!("{}.{}", price, "0".repeat(self.spec.precision as usize)) }),
+                8 => price = surplus_decimals_price(w[9], w[10], self.spec.precision),
                 9 => price = "0".into(),
                 10 => price = format!("-{}", price),
                 11 => price = ["abc", "", "1e5", "1,5", "1..2", " 1", "NaN", ".", "-"][pick(w[9], 9)].to_string(),
@@ -758,8 +807,8 @@ impl<'a> Interp<'a> {
         let mut sender = self.trader(w[7], &cfg.bid_attrs);
         let mut base = cfg.base.clone();
         let mut quote = at(&cfg.quotes, pick(w[1], cfg.quotes.len()), "quote1");
-        let mut price = price_string(w[4], w[8], self.spec.precision);
-        let mut size = size_of(w[3], cfg.increment);
+        let mut price = price_string_x(w[4], w[8], self.spec.precision, self.spec.extreme);
+        let mut size = size_of_x(w[3], cfg.increment, self.spec.extreme && gate(w[10].rotate_left(3), 600));
         if self.p.tie_seeking && gate(w[10], 500) {
             // totals that make rate x total land on or next to a half
             size = cfg.increment.saturating_mul(1 + (w[10] % 41) as u128);
@@ -797,7 +846,8 @@ impl<'a> Interp<'a> {
                 }
                 6 => size += 1,
                 7 => size = 0,
-                8 => price = format!("{}1", if price.contains('.') { pad_to(&price, self.spec.precision) } else { format!("{}.{}", price, "0".repeat(self.spec.precision as usize)) }),
+                8 if w[9] & 1 == 0 => price = format!("{}1", if price.contains('.') { pad_to(&price, self.spec.precision) } else { format!("{}.{}", price, "0".repeat(self.spec.precision as usize)) }),
+                8 => price = surplus_decimals_price(w[9], w[10], self.spec.precision),
                 9 => price = "0".into(),
                 10 => price = format!("-{}", price),
                 11 => price = ["abc", "", "1e5", "1,5", "1..2", " 1", "NaN", ".", "-"][pick(w[9], 9)].to_string(),
@@ -1202,7 +1252,7 @@ impl<'a> Interp<'a> {
                 1 => vec![],
                 2 => vec!["ask.kyc".to_string()],
                 3 => vec!["ask.kyc".to_string(), "ask.kyc".to_string()],
-                _ => vec!["ask.accredited".to_string(), "ask.kyc".to_string()],
+                _ => vec!["Ask.KYC".to_string(), "ask.kyc ".to_string()],
             });
         }
         if mask & 32 != 0 {
@@ -1244,6 +1294,26 @@ fn twin_of_legacy<'a>(keys: impl Iterator<Item = &'a String>, taken: impl Fn(&st
         }
     }
     None
+}
+
+/// a price with 1..3 decimals more than the market allows and a mantissa of 18 to 24 digits
+/// (beyond 64 bits most of the time); the last digit is never zero, so it is certainly too fine
+fn surplus_decimals_price(a: u32, b: u32, precision: u32) -> String {
+    let digits = 18 + (a % 7) as usize;
+    let mut x = (a as u64) << 32 | b as u64 | 1;
+    let mut m = String::new();
+    for i in 0..digits {
+        x = x.wrapping_mul(6364136223846793005).wrapping_add(1442695040888963407);
+        let d = ((x >> 33) % 10) as u8;
+        let d = if (i == 0 || i == digits - 1) && d == 0 { 7 } else { d };
+        m.push((b'0' + d) as char);
+    }
+    let decimals = (precision + 1 + (b % 3)) as usize;
+    if decimals >= m.len() {
+        format!("0.{}{}", "0".repeat(decimals - m.len()), m)
+    } else {
+        format!("{}.{}", &m[..m.len() - decimals], &m[m.len() - decimals..])
+    }
 }
 
 fn model_id_ok(id: &str) -> bool {
